@@ -224,3 +224,46 @@ def run(ck):
             from_param = any(ps.nodes[j]['k'] == 'DeclRefExpr' and ps.nodes[j].get('d') == shards_d for j in ps.walk(r_))
     ck.ob('C01.put', 'C01.put/shards-always-replaced', wit is None and from_param, ps.loc(),
           'every path through publish_shards stores a record built from the shards it was given (an overwrite of a live id replaces the key shares too)', wit)
+
+    # chunks are keyed by chunk_id_to_string(id): the rendering must be injective — every byte is written as exactly two hex digits
+    # (std::setw is not sticky: it has to be in the same insertion chain as each number)
+    PT = ck.prog(['src/core/Types.cpp'])
+    nnum = 0
+    badw = []
+    for f in PT.fns:
+        if not f.file.endswith('Types.cpp'):
+            continue
+        pm = f.parent_map()
+        for i in f.walk():
+            nd = f.nodes[i]
+            if nd['k'] != 'CXXOperatorCallExpr' or nd.get('op') != '<<':
+                continue
+            par = pm.get(i)
+            while par is not None and f.nodes[par]['k'] in ('ImplicitCastExpr', 'ParenExpr', 'MaterializeTemporaryExpr'):
+                par = pm.get(par)
+            if par is not None and f.nodes[par]['k'] == 'CXXOperatorCallExpr' and f.nodes[par].get('op') == '<<':
+                continue          # not the top of the chain
+            ops = []
+            j = i
+            while f.nodes[j]['k'] == 'CXXOperatorCallExpr' and f.nodes[j].get('op') == '<<' and len(f.kids(j)) == 3:
+                ops.append(f.kids(j)[2])
+                j = f.strip(f.kids(j)[1], casts=False)
+            nums = [o for o in ops if (f.nodes[f.strip(o, casts=False)].get('t') or '') in ('int', 'unsigned int', 'unsigned char', 'unsigned short')]
+            has_w2 = any((f.nodes[x].get('callee') or '') == 'std::setw' and any(f.nodes[y].get('cv') == '2' for y in f.walk(x)) for o in ops for x in f.walk(o))
+            for o in nums:
+                nnum += 1
+                if not has_w2:
+                    badw.append((f, o))
+    ck.floor('C01.key', 'numeric insertions in the id formatters', nnum, 1)
+    ck.ob('C01.key', 'C01.key/fixed-width-hex', not badw, badw[0][0].loc(badw[0][1]) if badw else '',
+          'every byte of an id is inserted with std::setw(2) in the same chain: distinct ids render to distinct keys')
+
+    # the listing is taken from chunks_ itself on every call: snapshot() keeps no copy that an overwrite could leave stale
+    sn = P.fn(CS + 'snapshot') if 'CS' in dir() else None
+    if sn is None:
+        sn = [f for f in P.fns if f.q == 'ephemeralnet::ChunkStore::snapshot'][0]
+    ck.touch(sn)
+    from sa.flow import field_accesses as _fa
+    other = sorted({m.split('::')[-1] for _i, m, _w in _fa(sn) if m.rsplit('::', 1)[0] == 'ephemeralnet::ChunkStore' and m.split('::')[-1] not in ('chunks_', 'chunks_mutex_')})
+    ck.ob('C01.list', 'C01.list/snapshot-uncached', not other, sn.loc(),
+          'ChunkStore::snapshot reads chunks_ (under chunks_mutex_) and no other member: there is no cached listing (other members touched: %s)' % (other or 'none'))
